@@ -114,6 +114,9 @@ def gen_world_r(files, repo, ctx, log):
         out.append("pub broadcast axiom fn lit_l_%d(b: f64) ensures R(#[trigger] %s.mul_spec(b)) == %s * R(b);" % (k, sl, real(v)))
         out.append("pub broadcast axiom fn lit_r_%d(b: f64) ensures R(#[trigger] b.mul_spec(%s)) == R(b) * %s;" % (k, sl, real(v)))
         names += ["lit_l_%d" % k, "lit_r_%d" % k]
+        if v != 0:
+            out.append("pub broadcast axiom fn lit_d_%d(a: f64) ensures R(#[trigger] a.div_spec(%s)) == R(a) / %s;" % (k, sl, real(v)))
+            names.append("lit_d_%d" % k)
     # value axioms of literals cannot be triggered on a constant: one ground axiom
     vals = ", ".join("R(%s) == %s" % (sl, real(v)) for sl, v in sorted(seen.items())) or "true"
     out.append("#[verifier::allow(broadcast_without_trigger)]")
